@@ -124,7 +124,7 @@ def case_record(cid, data, segm, out, serial, events, kw, nproc, labels_arg=None
     return {'id': cid, 'nproc': nproc, 'tasks': tasks, 'maxlab0': int(segm.max_label), 'relabel': bool(kw['relabel']),
             'npixels': kw['npixels'], 'contrast1': kw['contrast'] == 1, 'events': events, 'has_events': bool(events),
             'inp': segm.data.tolist(), 'out': out.data.tolist(), 'dmap': dm,
-            'same_as_serial': digest(out) == digest(serial), 'input_unchanged': digest(segm)[:3] == inp_before[:3]}
+            'same_as_serial': digest(out) == digest(serial), 'input_unchanged': digest(segm)[:3] == inp_before[:3], 'finder_same': True}
 
 
 def one_schedule_case(args):
@@ -275,9 +275,18 @@ def random_refine_case(seed):
     quiet = rng.random() < 0.15            # nothing will qualify (area < 2 * npixels) or nothing will split
     with warnings.catch_warnings():
         warnings.simplefilter('ignore')
-        segm = detect_sources(data, rng.choice([1.5, 3.0, 6.0]), npixels=npix, connectivity=conn)
+        thr0 = rng.choice([1.5, 3.0, 6.0])
+        segm = detect_sources(data, thr0, npixels=npix, connectivity=conn)
         if segm is None:
             return None
+        finder_same = True
+        if rng.random() < 0.3:
+            # the one-step interface: SourceFinder(deblend=True) is detect_sources followed by deblend_sources with the same parameters
+            from photutils.segmentation import SourceFinder
+            fkw = dict(nlevels=rng.choice([4, 32]), contrast=rng.choice([0, 0.001, 0.05]), mode=rng.choice(['exponential', 'linear', 'sinh']), relabel=rng.random() < 0.5)
+            sf = SourceFinder(npixels=npix, connectivity=conn, deblend=True, progress_bar=False, nproc=1, **fkw)(data, thr0)
+            man = deblend_sources(data, segm, npixels=npix, connectivity=conn, progress_bar=False, **fkw)
+            finder_same = sf is not None and digest(sf) == digest(man)
         segm = segm.copy()
         if rng.random() < 0.5 and segm.nlabels >= 2:      # label gaps / non-consecutive labels
             for l in rng.sample([int(x) for x in segm.labels], rng.randint(1, min(2, segm.nlabels))):
@@ -331,6 +340,7 @@ def random_refine_case(seed):
             out = serial
     kw['_inp_digest'] = before
     rec = case_record(seed, data, segm, out, serial, events, kw, 2 if events else 1, labels_arg)
+    rec['finder_same'] = bool(finder_same)
     return rec
 
 
